@@ -223,6 +223,25 @@ func C19() *engine.Check {
 						ctx.Outcome("wrong-key-rejected")
 					}
 				}
+				// wrong-size keys DERIVED from a valid key: a key whose tail is zero, truncated, or a
+				// valid key extended by extra bytes, must be refused (not zero-padded / truncated to fit)
+				k0 := append(append([]byte{}, c19Key[:16]...), make([]byte, 16)...)
+				m0 := meta.NewMeta()
+				if err := c19Add(m0, "k", pt, cs.AsStr, k0); err != nil {
+					ctx.Failf(cs, "add-fails", "AddEncrypted with a valid key whose second half is zero fails: %v", err)
+				} else {
+					derived := map[string][]byte{"first-16-bytes-of-key": k0[:16], "first-31-bytes-of-key": k0[:31], "key-plus-one-byte": append(append([]byte{}, k0...), 0), "key-plus-32-bytes": append(append([]byte{}, k0...), k0...)}
+					for name, k := range derived {
+						ctx.Eval(2)
+						if got, err := c19Get(m0, "k", cs.AsStr, k); err == nil {
+							ctx.Failf(cs, "wrong-size-key-accepted-by-get/"+name, "Get with the %s (%d bytes) decrypts %d bytes", name, len(k), len(got))
+						}
+						m5 := meta.NewMeta()
+						if err := c19Add(m5, "k", pt, cs.AsStr, k); err == nil {
+							ctx.Failf(cs, "wrong-size-key-accepted-by-add/"+name, "AddEncrypted accepts the %s (%d bytes)", name, len(k))
+						}
+					}
+				}
 				for name, k := range c19BadKeys(ctx.Tier) {
 					ctx.Eval(2)
 					ctx.Trans(1)
